@@ -51,10 +51,13 @@ func TestGvcReplay(t *testing.T) {
 		}
 		for _, n := range vals {
 			for _, l := range lens {
-				buf := make([]byte, l)
-				for i := range buf {
-					buf[i] = 0xA0 + byte(i)
+				// the buffer is a prefix of a larger array: the bytes behind len belong to someone else
+				backing := make([]byte, l+16)
+				for i := range backing {
+					backing[i] = 0xA0 + byte(i)
 				}
+				origBacking := append([]byte(nil), backing...)
+				buf := backing[:l]
 				orig := append([]byte(nil), buf...)
 				var got uint64
 				p := gvcPanics(func() {
@@ -69,8 +72,12 @@ func TestGvcReplay(t *testing.T) {
 						got = uint64(UInt32Get(buf))
 					}
 				})
+				if string(backing[l:]) != string(origBacking[l:]) {
+					confirm("len=%d cap=%d n=%#x: bytes behind the end of the buffer were written: % x", l, l+16, n, backing[l:])
+					return
+				}
 				if p != (l < w) {
-					confirm("len=%d n=%#x: panicked=%v, expected %v", l, n, p, l < w)
+					confirm("len=%d cap=%d n=%#x: panicked=%v, expected %v", l, l+16, n, p, l < w)
 					return
 				}
 				if p {
